@@ -1412,7 +1412,7 @@ func TestC09(t *testing.T) {
 	c09WitnessBorrowGuards(t, app, base, tr, 2)
 	c09WitnessBorrowStrict(t, app, base, tr, 1)
 	c09WitnessBorrowStrict(t, app, base, tr, 2)
-	c09WitnessEmodeMsgV1(t, app, base, tr)  // NEW finding: generation-1 MsgLiquidateBorrow ignores e-mode
+	c09WitnessEmodeMsgV1(t, app, base, tr)  // regression witness of D38 (fixed f18ae51): generation-1 MsgLiquidateBorrow ignored e-mode
 	c09WitnessAuctionTypesV2(t, app, base, tr) // English-only and no-type whitelistings
 
 	// ---- pure helper: GetSliceStartEndForLiquidations, exhaustive small and wide random
@@ -2117,9 +2117,10 @@ func c09WitnessBorrowGuards(t *testing.T, app *chain.App, base sdk.Context, tr *
 }
 
 // Generation 1, e-mode pair: the collateral price is put in the middle of the band between the pair's normal threshold and
-// its e-mode threshold. The block sweep (e-mode aware, liquidate_borrow.go:82-85) must leave the borrow alone; anybody's
-// MsgLiquidateBorrow (msg_server.go:153: `liqThreshold.LiquidationThreshold`, e-mode ignored) seizes it although it is SAFE
-// under the applicable (e-mode) threshold ⇒ MON gen1_msg_borrow_ignores_emode. Lean: C09.v1_msg_borrow_ignores_emode_counterexample.
+// its e-mode threshold: the borrow is SAFE under the applicable (e-mode) threshold. Neither the block sweep (liquidate_borrow.go:82-85)
+// nor anybody's MsgLiquidateBorrow may touch it. Regression witness of D38: until fix f18ae51 the message compared with
+// `liqThreshold.LiquidationThreshold` whatever the e-mode and seized it; a revert shows as DIFF + MON safe_never_seized here.
+// Lean: C09.v1_borrow_safe_never_seized, C09.v1_msg_borrow_ignored_emode_before_fix_counterexample.
 func c09WitnessEmodeMsgV1(t *testing.T, app *chain.App, base sdk.Context, tr *Trace) {
 	for _, sd := range []uint64{31, 32} {
 		ctx, _ := base.CacheContext()
@@ -2151,7 +2152,7 @@ func c09WitnessEmodeMsgV1(t *testing.T, app *chain.App, base sdk.Context, tr *Tr
 		f.block()
 		bp, _ := f.app.LendKeeper.GetBorrow(f.ctx, r.id)
 		tr.Set(fmt.Sprintf("witness_emode_v1_seed%d_flagged_by_sweep", sd), bp.IsLiquidated)
-		f.liquidateBorrowMsgV1(r.id) // the message judges with the normal threshold: seized
+		f.liquidateBorrowMsgV1(r.id) // the message judges with the e-mode threshold too (since f18ae51): accepted, nothing happens
 		bp, _ = f.app.LendKeeper.GetBorrow(f.ctx, r.id)
 		tr.Set(fmt.Sprintf("witness_emode_v1_seed%d_flagged_by_message", sd), bp.IsLiquidated)
 	}
